@@ -57,7 +57,10 @@ def skipVarintAux : Nat → Bytes → Except PErr Nat
       | .error e => .error e
 
 /-! ### `skipRecord` / `skipRaft`: the number of bytes a field occupies (may point behind the input:
-    the fixed-width cases do not check, the caller does) -/
+    the fixed-width cases do not check, the caller does).  Fuel: a nested group start costs two units
+    (`skipField` → `skipGroup`) and one byte, a further field of a group one unit and at least one byte, so
+    `2 * length + 4` never runs out (with `length + 1` the input `7b 1b` — two nested group starts at the end
+    of a record — ran out and answered `other` where the code answers `io.ErrUnexpectedEOF`). -/
 
 mutual
 def skipField : Nat → Bytes → Except PErr Nat
@@ -140,7 +143,7 @@ def scan (spec : Nat → Option Kind) (l : Nat) : Nat → Bytes → List (Nat ×
               else if len > rest2.length then .error .ueof                   -- postIndex > l
               else scan spec l fuel (rest2.drop len) ((fnum, .b (rest2.take len)) :: acc)
         | none =>
-          match skipField (b.length + 1) b with
+          match skipField (2 * b.length + 4) b with        -- fuel: ≤ 2 per byte (nested group starts), see the note at `skipField`
           | .error e => .error e
           | .ok skippy =>
             if (l - b.length) + skippy ≥ two63 then .error .other
